@@ -148,10 +148,10 @@ func checkC14(c *Ctx, r *Report) {
 				viol = fmt.Sprintf("%s leaves fields out depending on %s, %s does not: the positions of the reduced fields no longer line up with the declared ones (index out of range, or the type argument written to the wrong property)", red, k, inst)
 			}
 		}
-		for k := range b {
-			if !a[k] {
-				viol = fmt.Sprintf("%s leaves fields out depending on %s, %s does not: the positions of the reduced fields no longer line up with the declared ones (index out of range, or the type argument written to the wrong property)", inst, k, red)
-			}
+		// (instantiateGenericModel may additionally pass over fields it has nothing to rewrite in -
+		// after it has counted them; what must not happen is that Reduce drops a field it counts)
+		if gaps := jsonVisibilityGapsOfProfile(b); len(a) > 0 && len(gaps) > 0 {
+			viol = fmt.Sprintf("%s does not leave out the JSON-invisible fields that %s drops (missing: %v): the positions of the reduced fields no longer line up with the declared ones", inst, red, gaps)
 		}
 		o := r.add("C14.b", "sibling", "reduced-fields~declared-fields", "the reduction of a struct and the instantiation of a generic struct skip the same declared fields, so positions in the reduced field list line up", []string{red, inst}, append(sa, sb...), viol)
 		o.NonTrivial = true
@@ -214,18 +214,7 @@ func checkC14(c *Ctx, r *Report) {
 	checkNoGoroutines(c, r, "C14.c")
 
 	// ---- C14.d dropped errors
-	eds := w.errDropSites()
-	for _, s := range eds {
-		viol := ""
-		desc := "error of " + s.Callee + " discarded in " + s.Fn
-		if reason, ok := tbl.ErrDrop[s.Key]; ok {
-			desc += " (reviewed: " + reason + ")"
-		} else {
-			viol = fmt.Sprintf("%s: %s discards the error returned by %s: a failure would neither be reported nor stop the command", w.pos(s.Pos), s.Fn, s.Callee)
-		}
-		r.add("C14.d", "errdrop", s.Key, desc, []string{s.Fn, s.Callee}, []string{w.pos(s.Pos)}, viol)
-	}
-	r.count("dropped_error_sites", len(eds))
+	r.count("dropped_error_sites", ruleErrDrops(c, r, "C14.d"))
 	// the error chain from the visitors to cmd
 	ruleMustCallOK(c, r, "C14.d", "(*core/pipeline.GleecePipeline).Run", "(*core/pipeline.GleecePipeline).GenerateGraph", -1, "Run fails when graph generation recorded a visitor error")
 	if fi := need(c, r, "C14.d", "(*core/pipeline.GleecePipeline).GenerateGraph"); fi != nil {
@@ -285,6 +274,58 @@ func checkPanicInvariants(c *Ctx, r *Report) {
 			viol = fmt.Sprintf("expected exactly one creation site of Controller nodes, found %d", n)
 		}
 		r.add("C14.b", "whowrites", "invariant:controller-node-data", "Controller nodes carry a metadata.ControllerMeta value (makes getControllers' assertion safe)", []string{"(*graphs/symboldg.SymbolGraph).AddController"}, ss, viol)
+	}
+	// a controller and its receivers always carry an annotation holder: the validators and the
+	// reducers call methods on it without a nil test (a declaration without a doc comment gets an
+	// empty holder, not none)
+	for _, t := range []struct{ fn, field, what string }{
+		{"(*core/visitors.ControllerVisitor).createControllerMetadata", "Annotations", "the controller's SymNodeMeta.Annotations"},
+		{"(*core/visitors.RouteVisitor).getExecutionContext", "Annotations", "the receiver's executionContext.Annotations"},
+	} {
+		fi := need(c, r, "C14.a", t.fn)
+		if fi == nil {
+			continue
+		}
+		viol := ""
+		var ss []string
+		allInstrs(fi.SSA, true, func(_ *ssa.Function, b *ssa.BasicBlock, _ int, ins ssa.Instruction) {
+			st, ok := ins.(*ssa.Store)
+			if !ok {
+				return
+			}
+			fa, ok := st.Addr.(*ssa.FieldAddr)
+			if !ok {
+				return
+			}
+			fv := structFieldVar(fa.X.Type(), fa.Field)
+			if fv == nil || fv.Name() != t.field {
+				return
+			}
+			if _, isPtr := fv.Type().Underlying().(*types.Pointer); !isPtr {
+				return
+			}
+			ss = append(ss, w.pos(st.Pos()))
+			nonNil := false
+			for _, ov := range w.originValues(st.Val) {
+				switch ov.(type) {
+				case *ssa.Alloc:
+					nonNil = true
+				default:
+					nonNil = provablyNonNil(ov, b)
+				}
+				if !nonNil {
+					break
+				}
+			}
+			if !nonNil {
+				viol = fmt.Sprintf("%s: %s may be stored as nil (the stored value is not the address of a holder, and no nil test dominates the store): CommonValidator.Validate, Reduce and the link validator call methods on it unconditionally - a declaration without a doc comment would crash the command instead of being reported", w.pos(st.Pos()), t.what)
+			}
+		})
+		if len(ss) == 0 {
+			viol = "no store into " + t.what + " found in " + t.fn
+			ss = []string{w.pos(fi.Decl.Pos())}
+		}
+		r.add("C14.a", "whowrites", "invariant:annotation-holder-non-nil:"+t.fn, t.what+" is always a holder (possibly empty), never nil", []string{t.fn}, ss, viol)
 	}
 	// kind-guard
 	ruleGuarded(c, r, "C14.b", "(*graphs/symboldg.SymbolGraph).ensureTypeNode", "invariant:kind-guard",
@@ -701,4 +742,58 @@ func zeroLenFact(cnd ssa.Value, pol bool) bool {
 		return !pol
 	}
 	return false
+}
+
+// ruleErrDrops: every place where the error of a gleece function (or of a watched library
+// call) is discarded, or tested and then tolerated (logged, carried on), in the functions of
+// the given package prefixes (all when none) is reviewed in tables/crash.json. Returns the
+// number of sites.
+func ruleErrDrops(c *Ctx, r *Report, clause string, pkgPrefixes ...string) int {
+	w := c.W
+	tbl, err := loadCrashTables(c.VerifDir)
+	if err != nil {
+		r.undecided(clause, "errdrop", "tables/crash.json", "", err.Error())
+		return 0
+	}
+	n := 0
+	for _, s := range w.errDropSites() {
+		if len(pkgPrefixes) > 0 {
+			in := false
+			rel := strings.TrimLeft(s.Fn, "(*")
+			for _, p := range pkgPrefixes {
+				if strings.HasPrefix(rel, p+".") || strings.HasPrefix(rel, p+"/") {
+					in = true
+				}
+			}
+			if !in {
+				continue
+			}
+		}
+		n++
+		viol := ""
+		desc := "error of " + s.Callee + " discarded or tolerated in " + s.Fn
+		if reason, ok := tbl.ErrDrop[s.Key]; ok {
+			desc += " (reviewed: " + reason + ")"
+		} else if strings.Contains(s.Key, ":tolerates(") {
+			viol = fmt.Sprintf("%s: %s tests the error returned by %s and then carries on (at most logging it): the failure is neither reported as the command's result nor stops the work that depends on it", w.pos(s.Pos), s.Fn, s.Callee)
+		} else {
+			viol = fmt.Sprintf("%s: %s discards the error returned by %s: a failure would neither be reported nor stop the command", w.pos(s.Pos), s.Fn, s.Callee)
+		}
+		r.add(clause, "errdrop", s.Key, desc, []string{s.Fn, s.Callee}, []string{w.pos(s.Pos)}, viol)
+	}
+	return n
+}
+
+func jsonVisibilityGapsOfProfile(p map[string]bool) []string {
+	var gaps []string
+	if !p["call:go/ast.IsExported"] && !p["call:go/token.IsExported"] {
+		gaps = append(gaps, "exportedness")
+	}
+	if !p["field:core/metadata.FieldMeta.IsEmbedded"] {
+		gaps = append(gaps, "FieldMeta.IsEmbedded")
+	}
+	if !p[`lit:"-"`] {
+		gaps = append(gaps, `the json:"-" tag`)
+	}
+	return gaps
 }
